@@ -170,6 +170,21 @@ class _DetTempfile:
         raise HarnessError('unexpected tempfile.%s in treadmill.fs' % name)
 
 
+class _AppcfgOS:
+    """`os` as seen by treadmill.appcfg: `stat` comes from the harness inode
+    table (World.stat), everything else is the real module.  (Not
+    fsseam.SeamOS: this seam must own `stat`.)"""
+
+    def __init__(self, world):
+        self._world = world
+
+    def stat(self, path, *args, **kwargs):
+        return self._world.stat(path, *args, **kwargs)
+
+    def __getattr__(self, name):
+        return getattr(os, name)
+
+
 class _FakeStat:
     """os.stat_result with st_ctime / st_ino from the harness inode table."""
 
@@ -305,6 +320,8 @@ class World:
         self.writer_ready = False
         self.unique_name_collisions = 0
         self.mgr_died = 0
+        self.by_real_inode = {}    # (st_dev, st_ino) of a cache file -> inst
+        self.cache_inode_changes = 0
 
         # provenance: which real function performed which link operation
         self.hist = {}             # cname -> [dict(ev, where, by)]
@@ -376,6 +393,7 @@ class World:
 
     def _forget_cache(self, inst):
         ent = self.cache.pop(inst)
+        self.by_real_inode.pop(ent['real_inode'], None)
         self.live_inos.pop(ent['ino'], None)
         self.free_inos.append(ent['ino'])
         self.vers += 1
@@ -391,13 +409,50 @@ class World:
                 rec['finished'] = found[0]
 
     def stat(self, path, *args, **kwargs):
-        """os.stat as seen by treadmill.appcfg (gen_uniqueid)."""
+        """os.stat as seen by treadmill.appcfg (gen_uniqueid).
+
+        Any name of the inode of a cache entry (hard links share it) gets the
+        simulated st_ino / st_ctime of that entry."""
         real = os.stat(path, *args, **kwargs)
-        if os.path.dirname(path) == self.tm_env.cache_dir:
-            ent = self.cache.get(os.path.basename(path))
-            if ent is not None:
-                return _FakeStat(real, ent['ctime_us'], ent['ino'])
+        inst = self.by_real_inode.get((real.st_dev, real.st_ino))
+        ent = self.cache.get(inst) if inst is not None else None
+        if ent is not None:
+            self._refresh_ctime(inst, real)
+            return _FakeStat(real, ent['ctime_us'], ent['ino'])
         return real
+
+    @staticmethod
+    def _inode_state(real):
+        """What the kernel changes together with st_ctime.  On this kernel
+        (multigrain timestamps, the entry was stat()ed when it was written)
+        every inode change gives a new st_ctime_ns; the other fields are a
+        second line of detection."""
+        return (real.st_ctime_ns, real.st_nlink, real.st_mode, real.st_uid,
+                real.st_gid, real.st_size, real.st_mtime_ns)
+
+    def _refresh_ctime(self, inst, real=None):
+        """st_ctime semantics: whenever the kernel changed the inode of the
+        cache entry (link/unlink of another name, chmod, chown, rename,
+        write, ...), its simulated ctime becomes the current simulated time.
+        The cache ENTRY (generation, version) is unchanged by that."""
+        ent = self.cache[inst]
+        if real is None:
+            try:
+                real = os.stat(os.path.join(self.tm_env.cache_dir, inst))
+            except FileNotFoundError:
+                return
+            if (real.st_dev, real.st_ino) != ent['real_inode']:
+                return        # replaced behind the harness: reconciled later
+        state = self._inode_state(real)
+        if state != ent['real_state']:
+            ent['real_state'] = state
+            ent['ctime_us'] = self.clock.us
+            self.cache_inode_changes += 1
+            self.log.ev('cache-inode-changed', inst, real.st_nlink)
+
+    def _refresh_ctimes(self):
+        for inst in sorted(self.cache):
+            self._refresh_ctime(inst)
 
     # -- the configure seam ----------------------------------------------------
     def configure(self, tm_env, event_file, runtime, runtime_param):
@@ -430,6 +485,7 @@ class World:
                 raise HarnessError('configure(%s) raised %r' % (inst, err))
             self.log.ev('configure', inst, 'raised', type(err).__name__)
             raise
+        self._refresh_ctimes()
         if cdir is None:
             self.log.ev('configure', inst, None)
             return None
@@ -664,6 +720,7 @@ class World:
         old = self.links
         new = self._read_links()
         self._reconcile_cache()
+        self._refresh_ctimes()
         bad = nodecheck.finished_restarted(old, new, env.apps_dir, self.hist)
         if bad is None:
             bad = nodecheck.two_links(new, env.apps_dir, self.hist)
@@ -930,10 +987,15 @@ class World:
         if old is not None:
             self.live_inos.pop(old['ino'], None)
             self.free_inos.append(old['ino'])
+            self.by_real_inode.pop(old['real_inode'], None)
         self.vers += 1
+        real = os.stat(os.path.join(env.cache_dir, inst))
         self.cache[inst] = {'gen': gen, 'ver': self.vers, 'bad': bad,
                             'ctime_us': self.clock.us, 'ino': ino,
-                            'uname': None}
+                            'uname': None,
+                            'real_inode': (real.st_dev, real.st_ino),
+                            'real_state': self._inode_state(real)}
+        self.by_real_inode[(real.st_dev, real.st_ino)] = inst
         self.live_inos[ino] = inst
         self.ino_last_owner[ino] = inst
         # provenance only: the name the real formula gives this generation
@@ -1508,9 +1570,11 @@ class NodeSim(enginemod.Engine):
         'calls EventMgr._cache/_synchronize make (no ZooKeeper); an existing '
         'entry is only re-written while the READY marker is absent, as '
         'EventMgr does',
-        'os.stat as seen by treadmill.appcfg (st_ctime from the virtual '
-        'clock at the time of the write, st_ino from a harness inode table '
-        'with recorded reuse)',
+        'os.stat as seen by treadmill.appcfg: st_ino from a harness inode '
+        'table with recorded reuse (every hard link of the entry shares it), '
+        'st_ctime = simulated time of the last change of the inode - the '
+        'write, and every later change the kernel reports for the real file '
+        '(link/unlink of another name, chmod, chown, rename, write)',
         'glob.glob as seen by treadmill.appcfgmgr / treadmill.cleanup '
         '(sorted, then permuted by the op\'s recorded `order`)',
         'tempfile as seen by treadmill.fs (names from a counter)',
@@ -1590,8 +1654,7 @@ class NodeSim(enginemod.Engine):
         patches.set(fs, 'tempfile', _DetTempfile())
         patches.set(fs, 'replace', world.fs_replace)
         patches.set(fs, 'symlink_safe', world.fs_symlink_safe)
-        patches.set(appcfg, 'os',
-                    fsseam.SeamOS(seam, overrides={'stat': world.stat}))
+        patches.set(appcfg, 'os', _AppcfgOS(world))
         patches.set(appcfgmgr, 'glob', fsseam.SeamGlob(seam))
         patches.set(cleanupmod, 'glob', fsseam.SeamGlob(seam))
         patches.set(appcfgmgr, 'app_cfg', _CfgSeam(world))
@@ -1668,7 +1731,8 @@ class NodeSim(enginemod.Engine):
             res.probes = world.probes
             res.extra = {
                 'unique_name_collisions': world.unique_name_collisions,
-                'manager_died_in_handler': world.mgr_died}
+                'manager_died_in_handler': world.mgr_died,
+                'cache_inode_changes': world.cache_inode_changes}
             res.fps = world.fps
             res.nontrivial = world.nontrivial
             res.trace_fp = logmod.fingerprint(executed)
